@@ -124,14 +124,26 @@ class Result:
 
 
 def in_repo_frame(tb):
-    """True if the innermost frame of the traceback is library code (=> the library crashed)."""
-    last = None
+    """True if the library crashed: going outwards from the innermost frame and skipping third-party / standard-library frames
+    (NumPy raising on the arguments it was handed), the first frame that belongs to either side is library code."""
+    frames = []
     while tb is not None:
-        last = tb
+        frames.append(os.path.realpath(tb.tb_frame.f_code.co_filename))
         tb = tb.tb_next
-    if last is None: return False
-    fn = os.path.realpath(last.tb_frame.f_code.co_filename)
-    return fn.startswith(REPO_SRC)
+    for fn in reversed(frames):
+        if fn.startswith(REPO_SRC): return True
+        if fn.startswith(VERIF): return False
+    return False
+
+
+def recursion_in_repo(tb):
+    """A RecursionError belongs to the side that recursed: the library iff most of the innermost frames are library code."""
+    frames = []
+    while tb is not None:
+        frames.append(os.path.realpath(tb.tb_frame.f_code.co_filename))
+        tb = tb.tb_next
+    inner = frames[-60:]
+    return sum(fn.startswith(REPO_SRC) for fn in inner) * 2 > len(inner)
 
 
 def crash_kind(exc):
@@ -155,8 +167,10 @@ def execute_guarded(mod, case):
         raise
     except AbortRun as e:
         return e.res
-    except RecursionError:
-        raise
+    except RecursionError as e:
+        if not recursion_in_repo(e.__traceback__): raise
+        res = Result()
+        res.violate(crash_kind(e), f'RecursionError: {e}')
     except Exception as e:  # noqa
         if in_repo_frame(e.__traceback__):
             res = Result()
@@ -185,6 +199,8 @@ def _chunk(args):
             out.append({'i': i, 'harness_error': str(e)[-3000:]})
             continue
         s = res.summary()
+        if hasattr(mod, 'finding_key'):      # decided where the run was executed: the parent need not re-execute every run of a known finding
+            s['keys'] = {v['kind']: mod.finding_key(case, res, v['kind']) for v in res.violations}
         s['i'] = i
         s['case_digest'] = digest_of(case)
         out.append(s)
@@ -339,6 +355,7 @@ def run_check(prop, tier, seed, runs=None, workers=None, wall_cap=None, write_ev
             first_by_kind.setdefault(v['kind'], []).append(s['i'])
     n_viol_runs = sum(1 for s in ok_runs if s['violations'])
     reported, known_lines = [], []
+    keys_by_run = {s['i']: s.get('keys', {}) for s in ok_runs if s['violations']}
     exit_code = 0
     not_reproduced, last_kind = 0, None
     unverified = []
@@ -349,6 +366,8 @@ def run_check(prop, tier, seed, runs=None, workers=None, wall_cap=None, write_ev
         handled_unknown = 0
         known_seen = set()
         for i in idxs:
+            wkey = keys_by_run.get(i, {}).get(kind)
+            if wkey is not None and wkey in known_seen and known_entry(prop, wkey) is not None: continue      # same known finding as a run verified above
             case = mod.gen(rng_for(seed, prop, i), tier, i)
             res = execute_guarded(mod, case)
             if not same_violation(res, kind):
